@@ -534,6 +534,16 @@ class FileGen:
     def data_stmt(self, out):
         rng = self.rng
         k = rng.random()
+        if rng.random() < 0.04:
+            # operand-less data directives: legal (a warning), sizes 1 / 2 / 4
+            kw = rng.choice([".byte", ".word", ".dword", ".dw", ".db"])
+            if kw in (".byte", ".db"):
+                out.append(Stmt(kw, "byte0"))
+                self.flip(1)
+            else:
+                self.need_even(out)
+                out.append(Stmt(kw, "word0"))
+            return
         if k < 0.2:
             n = rng.randint(1, 4)
             out.append(Stmt(".byte " + ", ".join(self.expr("sbyte").text for _ in range(n)), "byte"))
